@@ -120,6 +120,47 @@ def solve_root_cases(prog: Program):
             yield tag, desc, wtxt, ok, v, prog.loc(fi, f.exit[2]), fi, f, fins
 
 
+def size_publications(prog: Program):
+    """per returning path of GHE.size: (path, the value of the last write of bhe.b.H - the height the object is left at -, its
+    node, 'solver' | 'min-met' | 'other').  'min-met': the path left the object at min_height having established that the
+    excess there is <= 0 - what the solver's clamp would have returned too."""
+    q = f"{GHX}.GHE.size"
+    sfi = prog.func(q)
+    closures = sc.height_closures(sfi.node)
+
+    class H(Hooks):
+        def on_call(self, node, fname, args, kwargs, st, eng):
+            if fname == "solve_root":
+                return Rat.atom("SOLVE_ROOT_RESULT")
+            if fname == "self.simulate":
+                return Seq([Rat.atom("MX"), Rat.atom("MN")], "tuple")
+            if fname in closures and len(args) > closures[fname] and isinstance(args[closures[fname]], Rat):
+                st.emit("HWRITE", args[closures[fname]], node)
+                return sym._plain_call("OBJ", [args[closures[fname]]])
+            return None
+
+        def on_assign(self, key, val, stmt, st, eng):
+            if key == "self.bhe.b.H":
+                st.emit("HWRITE", val, stmt)
+
+    eng = Engine(prog, sfi, H())
+    out = []
+    for f in eng.run_function(State()):
+        if f.exit is not None and f.exit[0] != "return":
+            continue
+        hw = [e for e in f.events if e.kind == "HWRITE"]
+        if not hw:
+            raise AnalysisError(f"{q}: no height write on a returning path")
+        v = hw[-1].data
+        kind = "other"
+        if isinstance(v, Rat) and v.equals(Rat.atom("SOLVE_ROOT_RESULT")):
+            kind = "solver"
+        elif isinstance(v, Rat) and v.equals(sc.MINH) and f.sign_of(sym._plain_call("OBJ", [sc.MINH])) <= frozenset("-0"):
+            kind = "min-met"
+        out.append((f, v, hw[-1].node, kind))
+    return sfi, out
+
+
 def ite_leaves(x: Rat, depth: int = 4):
     """the values a conditional expression  a if c else b  (kept as an ite(...) atom) can take; [x] for anything else"""
     if depth > 0 and len(x.all_atoms()) >= 1:
@@ -184,10 +225,15 @@ def _height_value_set(prog: Program, res: Result):
     if len(calls) != 1:
         raise AnalysisError(f"{q}: solve_root call not found")
 
+    closures = sc.height_closures(sfi.node)
+
     class H2(Hooks):
         def on_call(self, node, fname, args, kwargs, st, eng):
             if fname == "solve_root":
                 return Rat.atom("SOLVE_ROOT_RESULT")
+            if fname in closures and len(args) > closures[fname] and isinstance(args[closures[fname]], Rat):
+                st.emit("HWRITE", args[closures[fname]], node)  # the objective writes its trial height, then simulates
+                return sym._plain_call("OBJ", [args[closures[fname]]])
             if fname == "self.simulate":
                 return Seq([Rat.atom("MX"), Rat.atom("MN")], "tuple")
             return None
@@ -222,8 +268,10 @@ def _height_value_set(prog: Program, res: Result):
         if not hw:
             raise AnalysisError(f"{q}: no height write on a returning path")
         last = hw[-1]
-        ok = isinstance(last.data, Rat) and last.data.equals(Rat.atom("SOLVE_ROOT_RESULT"))
-        res.ob("R02.1", "size(): the height it publishes is exactly the value solve_root returned", ok, prog.loc(sfi, last.node))
+        solved = isinstance(last.data, Rat) and last.data.equals(Rat.atom("SOLVE_ROOT_RESULT"))
+        bound = isinstance(last.data, Rat) and (last.data.equals(sc.MINH) or last.data.equals(sc.MAXH))
+        ok = solved or bound
+        res.ob("R02.1", "size(): the height it publishes is exactly the value solve_root returned" if solved else f"size(): a path publishes {vkey(last.data)[:60]}, one of the two bounds", ok, prog.loc(sfi, last.node))
         if not ok:
             res.violation("R02.1", f"size-publish|{vkey(last.data)[:80]}", prog.loc(sfi, last.node), q,
                           f"size() publishes {vkey(last.data)[:120]} instead of the solver's value: the height can leave [min_height, max_height]")
